@@ -552,6 +552,221 @@ class ValueNthPerson(Contract):
         return judge(nat)
 
 
+class ValueNthPersonSite(Contract):
+    """call-site form of ValueNthPerson: VAL(g) = array[member of g at position n] if g has more than n members, else the default"""
+    name = f"{GPOP}.value_nth_person"
+    prop = ()
+
+    def outcomes(self, I, ctx, a, old):
+        w = ctx.ghost["gw"]
+        c = counting(ctx)
+        n, arr, default = B.zint(a["n"]), a["array"], a.get("default", 0)
+        ctx.oblige("value_nth_person.requires.one-value-per-person", B._z(arr.n) == w.N, kind="requires")
+
+        def elem(g):
+            gz = B._z(g)
+            return B.ite_val(c.SIZE(gz) > n, lambda: arr.elem(smt.simp(c.PW(gz, n))), lambda: default)
+        return ("return", nparr.NArr(w.G, elem, arr.dtype, "value_nth_person"))
+
+    def post(self, I, ctx, a, out, old):
+        return []
+
+
+REDUCERS = {"max": ("maximum", lambda r, v: r >= v), "min": ("minimum", lambda r, v: r <= v), "all": ("logical_and", lambda r, v: z3.Implies(r, v))}
+
+
+def _conv(ctx):
+    return B.zbool if ctx.ghost.get("kind") == "all" else B.zreal
+
+
+class GroupWrappers(Contract):
+    name = f"{GPOP}.max"
+    prop = ("C10",)
+    top_level = True
+    cases = ("max",)
+    WANT = {"max": ("maximum", "-inf"), "min": ("minimum", "+inf"), "all": ("logical_and", True)}
+    descr = ("max / min / all are reduce with numpy.maximum / minimum / logical_and and the neutral element -inf / +inf / True, for the "
+             "same array and role")
+
+    def setup(self, I, ctx, case):
+        w = GWorld(I, ctx, roles=True)
+        ctx.ghost["gw"] = w
+        return {"self": w.pop, "array": w.array, "role": w.role, "__case": case}
+
+    @staticmethod
+    def local_contracts():
+        return {f"{GPOP}.reduce": rec(f"{GPOP}.reduce", "reduce", [("return", lambda I, ctx, a: Opaque(None, "reduced", {}))])}
+
+    def post(self, I, ctx, a, out, old):
+        calls = log_of(ctx, "reduce")
+        fn, neutral = self.WANT[a["__case"]]
+        if len(calls) != 1:
+            return [("one-reduction", False)]
+        c = calls[0]["args"]
+        ne = c.get("neutral_element")
+        if neutral is True:
+            nok = ne is True
+        else:
+            nok = isinstance(ne, nparr.Inf) and ne.positive == (neutral == "+inf")
+        return [("same-array-and-role", c.get("array") is a["array"] and c.get("role") is a["role"]),
+                ("the-reducer-of-this-operation", c.get("reducer") is I.ext["numpy"][fn]),
+                ("its-neutral-element", nok),
+                ("returns-the-reduction", out[0] == "return" and out[1] is calls[0]["value"])]
+
+
+class GroupWrappersMin(GroupWrappers):
+    name = f"{GPOP}.min"
+    cases = ("min",)
+
+
+class GroupWrappersAll(GroupWrappers):
+    name = f"{GPOP}.all"
+    cases = ("all",)
+
+
+class ValueFromFirstPerson(Contract):
+    name = f"{GPOP}.value_from_first_person"
+    prop = ("C10",)
+    top_level = True
+    descr = "value_from_first_person is value_nth_person at position 0 of the same array"
+
+    def setup(self, I, ctx, case):
+        w = GWorld(I, ctx)
+        ctx.ghost["gw"] = w
+        return {"self": w.pop, "array": w.array}
+
+    @staticmethod
+    def local_contracts():
+        return {f"{GPOP}.value_nth_person": rec(f"{GPOP}.value_nth_person", "nth", [("return", lambda I, ctx, a: Opaque(None, "nth-value", {}))])}
+
+    def post(self, I, ctx, a, out, old):
+        calls = log_of(ctx, "nth")
+        if len(calls) != 1:
+            return [("one-look-up", False)]
+        c = calls[0]["args"]
+        return [("position-zero-of-the-same-array", c.get("n") == 0 and c.get("array") is a["array"] and c.get("self") is a["self"]),
+                ("returns-it", out[0] == "return" and out[1] is calls[0]["value"])]
+
+
+class GroupReduce(Contract):
+    name = f"{GPOP}.reduce"
+    prop = ("C10",)
+    top_level = True
+    cases = ("max", "min", "max-role", "min-role", "all", "all-role")
+    descr = ("reduce with numpy.maximum / numpy.minimum and a neutral element beyond every value gives, per group, a bound of the values "
+             "of exactly its members (in the role) that is attained by one of them - the neutral element where there is none; with "
+             "numpy.logical_and and True it is true exactly when the array is true for every member (in the role)")
+
+    def setup(self, I, ctx, case):
+        kind = case.split("-")[0]
+        w = GWorld(I, ctx, roles=case.endswith("role"))
+        ctx.ghost["gw"] = w
+        ctx.assume(w.N >= 1)
+        if kind == "all":
+            NEU = z3.BoolVal(True)
+            BA = z3.Function(ctx.fresh_name("BOOLA"), z3.IntSort(), z3.BoolSort())
+            w.A = BA
+            w.array = nparr.NArr(w.N, lambda j: Sym(BA(B._z(j))), "bool", "person-bools")
+            ctx.ghost["NEU"], ctx.ghost["kind"] = NEU, kind
+            return {"self": w.pop, "array": w.array, "reducer": I.ext["numpy"]["logical_and"], "neutral_element": True, "role": w.role,
+                    "__w": w, "__kind": kind}
+        NEU = ctx.fresh_real("neutral")
+        ctx.ghost["NEU"], ctx.ghost["kind"] = NEU, kind
+        i = z3.Int("i_neu")
+        ctx.assume(z3.ForAll([i], z3.Implies(z3.And(i >= 0, i < w.N), REDUCERS[kind][1](w.A(i), NEU)), patterns=[w.A(i)]))     # beyond every value
+        return {"self": w.pop, "array": w.array, "reducer": I.ext["numpy"][REDUCERS[kind][0]], "neutral_element": Sym(NEU), "role": w.role,
+                "__w": w, "__kind": kind}
+
+    @staticmethod
+    def local_contracts():
+        d = GWorld.site_contracts(None)
+        d[MembersPositionSite.name] = MembersPositionSite()
+        d[ValueNthPersonSite.name] = ValueNthPersonSite()
+        d[f"{CPOP}.filled_array"] = rec(f"{CPOP}.filled_array", "filled_array",
+                                        [("return", lambda I, ctx, a: nparr.NArr(ctx.ghost["gw"].G, lambda g: a["value"], "float", "filled"))])
+        return d
+
+    # value at position q of group g of the filtered array
+    @staticmethod
+    def _val(ctx, vars, g, q):
+        w, NEU = ctx.ghost["gw"], ctx.ghost["NEU"]
+        c = counting(ctx)
+        fa = vars["filtered_array"]
+        return z3.If(c.SIZE(g) > q, _conv(ctx)(fa.elem(smt.simp(c.PW(g, q)))), NEU)
+
+    def _inv(self, ctx, I, vars):
+        w, NEU, kind = ctx.ghost["gw"], ctx.ghost["NEU"], ctx.ghost["kind"]
+        p = B._z(vars["__k0"])
+        r = vars["result"]
+        ATT = ctx.ghost.setdefault("ATT", z3.Function(ctx.fresh_name("ATTAINED_AT"), z3.IntSort(), z3.IntSort()))
+        g, q = z3.Int(ctx.fresh_name("g_inv")), z3.Int(ctx.fresh_name("q_inv"))
+        rg = _conv(ctx)(r.elem(g))
+        bound = REDUCERS[kind][1]
+        return [("one-value-per-group", B._z(r.n) == w.G),
+                ("bounds-the-values-at-the-positions-done",
+                 z3.ForAll([g, q], z3.Implies(z3.And(g >= 0, g < w.G, q >= 0, q < p), bound(rg, self._val(ctx, vars, g, q))))),
+                ("is-the-neutral-element-or-the-value-at-one-of-the-positions-done",
+                 z3.ForAll([g], z3.Implies(z3.And(g >= 0, g < w.G),
+                                           z3.Or(rg == NEU, z3.And(ATT(g) >= 0, ATT(g) < p, rg == self._val(ctx, vars, g, ATT(g)))))))]
+
+    def _havoc(self, ctx, I, vars):
+        w = ctx.ghost["gw"]
+        F = z3.Function(ctx.fresh_name("RES_h"), z3.IntSort(), z3.BoolSort() if ctx.ghost["kind"] == "all" else z3.RealSort())
+        vars["result"] = nparr.NArr(w.G, lambda g: Sym(F(B._z(g))), "bool" if ctx.ghost["kind"] == "all" else "float", "result-h")
+        ctx.ghost["ATT"] = z3.Function(ctx.fresh_name("ATTAINED_AT"), z3.IntSort(), z3.IntSort())
+        vars["p"] = Sym(ctx.fresh_int("hv_p"))
+        vars["values"] = nparr.NArr(w.G, lambda g: Sym(z3.Real("hv_values")), "float", "values-h")
+
+    def _step(self, ctx, I, vars):
+        # ghost update: where the new value took over, the bound is attained at the position just done
+        w, kind = ctx.ghost["gw"], ctx.ghost["kind"]
+        p = B._z(vars["__k0"]) - 1
+        old = ctx.ghost["ATT"]
+        new = z3.Function(ctx.fresh_name("ATTAINED_AT"), z3.IntSort(), z3.IntSort())
+        g = z3.Int(ctx.fresh_name("g_step"))
+        r = vars["result"]
+        took_over = _conv(ctx)(r.elem(g)) == self._val(ctx, vars, g, p)
+        ctx.assume(z3.ForAll([g], new(g) == z3.If(took_over, p, old(g)), patterns=[new(g)]))
+        ctx.ghost["ATT"] = new
+
+    @property
+    def loops(self):
+        from pyvc.contract import LoopSpec
+        return {0: LoopSpec(self._inv, self._havoc, step=self._step)}
+
+    def post(self, I, ctx, a, out, old):
+        w, kind = a["__w"], a["__kind"]
+        NEU = ctx.ghost["NEU"]
+        if out[0] != "return" or not isinstance(out[1], nparr.NArr):
+            return [("returns-one-value-per-group", False)]
+        r = out[1]
+        c = counting(ctx)
+        bound = REDUCERS[kind][1]
+        i, g = ctx.fresh_int("i"), ctx.fresh_int("g")
+        in_role = w.INROLE(i) if a["role"] is not None else z3.BoolVal(True)
+        rg = _conv(ctx)(r.elem(g))
+        ATT = ctx.ghost["ATT"]
+        m = c.PW(g, ATT(g))
+        m_in_role = w.INROLE(m) if a["role"] is not None else z3.BoolVal(True)
+        return [("one-value-per-group", B._z(r.n) == w.G),
+                # proof steps: a member is the member of its group at its own position, and its position is below its group's size
+                ("step.a-member-is-the-member-of-its-group-at-its-own-position",
+                 z3.Implies(z3.And(i >= 0, i < w.N), z3.And(c.POS(i) >= 0, c.POS(i) < c.SIZE(w.EID(i)), c.PW(w.EID(i), c.POS(i)) == i))),
+                ("bounds-the-value-of-every-member-in-the-role",
+                 z3.Implies(z3.And(i >= 0, i < w.N, in_role), bound(_conv(ctx)(r.elem(w.EID(i))), w.A(i)))),
+                ("is-the-value-of-a-member-in-the-role-or-the-neutral-element",
+                 z3.Implies(z3.And(g >= 0, g < w.G, rg != NEU), z3.And(m >= 0, m < w.N, w.EID(m) == g, m_in_role, rg == w.A(m))))]
+
+    def probes(self, case):
+        kind = case.split("-")[0]
+        return [{"callee": self.name, "script": NATIVE, "op": kind, "role": case.endswith("role"), "count": 3, "eid": eid,
+                 "values": [10.0, -20.0, 30.0, 5.0, 50.0, -60.0][:len(eid)], "inrole": inrole}
+                for eid, inrole in (([1, 0, 0, 2, 0, 1], [True, False, True, False, True, False]), ([2, 1, 0], [True, True, False]), ([0, 0, 1], [False, True, False]))]
+
+    def judge_native(self, I, case, call, nat):
+        return judge(nat)
+
+
 class ProjectorTransform(Contract):
     name = f"{PROJ}.projector.Projector.transform_and_bubble_up"
     prop = ("C10",)
@@ -703,4 +918,4 @@ def lemmas(prop, timeout_ms):
     return recs
 
 
-CONTRACTS = [GroupSum(), GroupNbPersons(), GroupAny(), GroupProject(), MembersPosition(), ValueFromPerson(), ValueNthPerson(), ProjectorTransform(), ProjectorTransforms(), ProjectorTransformsFirst(), ProjectorTransformsRole()]
+CONTRACTS = [GroupSum(), GroupNbPersons(), GroupAny(), GroupProject(), MembersPosition(), ValueFromPerson(), ValueNthPerson(), GroupReduce(), GroupWrappers(), GroupWrappersMin(), GroupWrappersAll(), ValueFromFirstPerson(), ProjectorTransform(), ProjectorTransforms(), ProjectorTransformsFirst(), ProjectorTransformsRole()]
